@@ -45,6 +45,7 @@ SIG_Q = R("sig_q", "sig_q.cfg", rounds=3, expect_ops=["add_signature", "sign", "
 REMOVE_Q = R("remove_q", "remove_q.cfg", rounds=2, expect_ops=["remove_assertion", "replace_assertion", "replace_subject", "assertion_with_digest"])
 REELIDE_Q = R("reelide_q", "reelide_q.cfg", rounds=2, expect_ops=["elide", "elide_set", "unelide"])
 SIG_Q2 = R("sig_q2", "sig_q2.cfg", rounds=2, expect_ops=["add_signature", "sign", "obs_verify", "elide_set"])
+SIG_Q3 = R("sig_q3", "sig_q3.cfg", rounds=2, expect_ops=["add_signature", "sign", "obs_verify"])
 SIG_T = R("sig_t", "sig_t.cfg", rounds=2, timeout=3000, expect_ops=["add_signature", "sign", "forge_signed", "obs_verify", "elide_set", "uncompress", "encode_decode"])
 RECIPIENT_Q = R("recipient_q", "recipient_q.cfg", rounds=4, expect_ops=["encrypt_subject_to_recipients", "encrypt_to_recipient", "seal", "unseal", "add_recipient", "share_with", "decrypt_subject_to_recipient", "decrypt_to_recipient"],
                 expect_out=["decrypt_subject_to_recipient:ok", "decrypt_subject_to_recipient:err", "unseal:ok", "unseal:err"])
@@ -97,9 +98,9 @@ PLAN = {
         thorough=[CORE_ALL3, CORE_T, OBS_Q, OBS_Q2, REMOVE_Q, TRACE_WALK_T, TRACE_ORDER],
     ),
     "C02": dict(
-        rule="every shape of <= 5 elements x every target subset (<= 3 digests incl. an absent one) x both modes x {elide, encrypt, compress} and the whole-envelope calls, then a second obscuring call (also on nodes: reelide_q = progressive redaction of nodes, node-subject nodes, decorated assertions) on the result; digests at every surviving position compared with the specification's terms",
-        quick=[OBS_Q, OBS_Q2, OBS_Q3, REELIDE_Q],
-        thorough=[OBS_Q, OBS_Q2, OBS_Q3, REELIDE_Q, OBSCURE_T, DEEP_S_T, DEEP_X_T],
+        rule="every shape of <= 5 elements x every target subset (<= 3 digests incl. an absent one) x both modes x {elide, encrypt, compress} and the whole-envelope calls, then a second obscuring call; the decoder guard on which the property rests (decode_q: a non-canonical node - repeated or unsorted assertions - never becomes an envelope); (also on nodes: reelide_q = progressive redaction of nodes, node-subject nodes, decorated assertions) on the result; digests at every surviving position compared with the specification's terms",
+        quick=[OBS_Q, OBS_Q2, OBS_Q3, REELIDE_Q, DECODE_Q],
+        thorough=[OBS_Q, OBS_Q2, OBS_Q3, REELIDE_Q, DECODE_Q, OBSCURE_T, DEEP_S_T, DEEP_X_T],
     ),
     "C03": dict(
         rule="as C02; the expected tree says exactly which positions are hidden, the serialized bytes must equal the evaluated wire term (no residue), unelide with every register pair",
@@ -153,8 +154,8 @@ PLAN = {
     ),
     "C09": dict(
         rule="subjects (leaf, wrapped, node) x signers {s1,s2} (scheme per chain: s1 deterministic - ECDSA, Ed25519, SSH-Ed25519; s2 randomised - Schnorr, ML-DSA44) with/without metadata x then another signature / a forged 'signed' assertion of 8 kinds / elision of any part / another assertion / a repeated signature by the same key after elision or compression of any part (sig_q2) x has_signature_from, verify_signature_from, verify, *_returning_metadata for every key list of length 1-2 and threshold none, 1..n+1",
-        quick=[SIG_Q, SIG_Q2],
-        thorough=[SIG_Q, SIG_Q2, SIG_T, DEEP_X_T],
+        quick=[SIG_Q, SIG_Q2, SIG_Q3],
+        thorough=[SIG_Q, SIG_Q2, SIG_Q3, SIG_T, DEEP_X_T],
     ),
     "C10": dict(
         rule="shapes x recipient lists of length 1-2 over {r1,r2} (X25519 / ML-KEM512 / ML-KEM768 per chain, duplicates allowed) x {encrypt_subject_to_recipients, encrypt_to_recipient, seal} then add_recipient / re-sharing by an existing recipient / another assertion, then decrypt_subject_to_recipient / decrypt_to_recipient / unseal with each private key and sender",
